@@ -46,6 +46,15 @@ CLAIMS = {
          "the eigen-solver; the winding correction between two faces sharing an edge. All meshes, positions and slot patterns symbolic."),
    design='6 C12', technique='contract-based deductive verification: loop contracts with ghost partial-sum functions, cuts and generalisation lemmas, SMT + exact polynomial back end',
    note=NOTE_COMMON + " Enclosed-volume meaning and rigid-motion invariance of volume/centroid rest on the quoted closed-surface lemma; flood fill and eigen-solver are named unverified."),
+ 'C18': dict(
+   text=("Contracts on the real parameter reader over a facade of tinyxml2 and the string conversions: for the three reading functions, on normal "
+         "return every documented tag is present and the field named after it (table written from the documentation) holds the converted "
+         "text, INF maps to infinity where documented, sign constraints hold, every other exit is an exception of a std::exception-derived "
+         "class; no std::terminate in get_string_value; cell types and face types keep the order of the file (loop-body contracts + the "
+         "returned list equals the list built by the loop); constructors of the consumers take the values they are named after. All tag texts, "
+         "any number of cell/face types symbolic."),
+   design='6 C18', technique='contract-based deductive verification over the clang AST with uninterpreted-function models of tinyxml2 and std::sto*, exceptions as outcomes, SMT',
+   note=NOTE_COMMON + " tinyxml2 and std::stod/stoi are modelled, not verified."),
  'C20': dict(
    text=("Contracts on the real grid templates as instantiated by the repository: update_dimensions (every point of the declared box, as a free "
          "variable, is indexable and maps to an existing voxel; voxel count without 32-bit wrap; grid emptied), index functions (formula, range, "
